@@ -85,10 +85,10 @@ def _invoke(fn):
     return None
 
 
-def _run_script(path, V):
+def _run_script(path):
     with open(path) as f:
         code = compile(f.read(), path, "exec")
-    exec(code, {"__name__": "c17_entry", "__file__": path, "V": V})
+    exec(code, {"__name__": "c17_entry", "__file__": path})
 
 
 def safe_eq(a, b):
@@ -99,6 +99,8 @@ def safe_eq(a, b):
     try:
         if isinstance(a, BaseException):
             return repr(a.args) == repr(b.args)
+        if type(a).__eq__ is object.__eq__ and hasattr(a, "__dict__") and not callable(a) and not isinstance(a, types.ModuleType):
+            return vars(a) == vars(b)          # plain objects without __eq__ (e.g. __future__._Feature)
         return bool(a == b)
     except Exception:
         return False
@@ -323,7 +325,7 @@ def impl_case(c):
 
 def _impl(c, tmp):
     import pyflyby._saveframe as SF
-    root = os.path.join(tmp, "src")
+    root = os.path.join(tmp, c.get("root", "src"))
     prog = c["prog"]
     for rel, text in prog["files"].items():
         p = os.path.join(root, rel)
@@ -340,55 +342,65 @@ def _impl(c, tmp):
         if m.split(".")[0] in ("m0", "m1", "pkg") and hasattr(sys.modules[m], "V"):
             sys.modules[m].V = V
     ent = prog["entry"]
-    if ent["kind"] == "call":
-        exc = _invoke(eval("lambda: %s()" % ent["expr"], vars(mods[ent["module"]])))
-    elif ent["kind"] == "exec":
-        path = os.path.join(root, ent["path"])
-        exc = _invoke(lambda: _run_script(path, V))
-    else:
-        exc = ValueError("never raised")          # no traceback at all
-    if c.get("exc_unpicklable") and exc is not None:
-        exc.args = exc.args + (lambda: 0,)
-    # ---- live observation (before the save)
-    values = Values()
-    frames = chain_frames(exc)
-    uids = {}
-
-    def uid(fr):
-        return uids.setdefault(id(fr), len(uids))
-    tree = exn_tree(exc, uid)
-    for fr in frames:
-        uid(fr)
-    by_uid = {}
-    for fr in frames:
-        by_uid[uid(fr)] = fr
-    desc = {str(u): describe_frame(fr, values, tmp) for u, fr in by_uid.items()}
-    order = [uid(fr) for fr in frames]
-    pk = [picklable(v) for v in values.vals]
-    try:
-        pickle.dumps(exc, protocol=5)
-        dump_ok = True
-    except Exception:
-        dump_ok = False
-    # ---- arguments
-    eff = {"frames": subst(c["sel"]["arg"], root), "variables": c["variables"], "exclude": c["exclude"]}
-    if isinstance(eff["frames"], dict) and "tuple" in eff["frames"]:
-        eff["frames"] = tuple(eff["frames"]["tuple"])
-    for k in ("variables", "exclude"):
-        if isinstance(eff[k], dict) and "tuple" in eff[k]:
-            eff[k] = tuple(eff[k]["tuple"])
     out = os.path.join(tmp, "out", "frames.pkl")
     os.makedirs(os.path.dirname(out))
     if c.get("pre") is not None:
         with open(out, "wb") as f:
             f.write(OLD_CONTENT)
         os.chmod(out, c["pre"])
-    cur = None
-    curframe = None
-    if c.get("curframe") is not None and frames:
-        curframe = frames[c["curframe"] % len(frames)]
-        cur = uid(curframe)
-    # ---- the call, with re.search recorded
+    eff = {"frames": subst(c["sel"]["arg"], root), "variables": c["variables"], "exclude": c["exclude"]}
+    for k in ("frames", "variables", "exclude"):
+        if isinstance(eff[k], dict) and "tuple" in eff[k]:
+            eff[k] = tuple(eff[k]["tuple"])
+    obs = {}
+    values = Values()
+
+    def observe(exc):
+        """live observation, made immediately before the save"""
+        frames = chain_frames(exc)
+        uids = {}
+        by_uid = {}
+
+        def uid(fr):
+            u = uids.setdefault(id(fr), len(uids))
+            by_uid[u] = fr
+            return u
+        obs["tree"] = exn_tree(exc, uid)       # every frame of every exception reachable by cause / context
+        for fr in frames:
+            uid(fr)
+        obs["frames"] = {str(u): describe_frame(fr, values, tmp) for u, fr in by_uid.items()}
+        obs["order"] = [uid(fr) for fr in frames]
+        obs["pk"] = [picklable(v) for v in values.vals]
+        try:
+            pickle.dumps(exc, protocol=5)
+            obs["dump_ok"] = True
+        except Exception:
+            obs["dump_ok"] = False
+        obs["live_exc"] = [str(exc), "%s: %s" % (type(exc).__name__, exc), type(exc).__name__, type(exc).__qualname__, repr(exc.args)]
+        obs["cur"] = None
+        if c.get("curframe") is not None and frames:
+            cf = frames[c["curframe"] % len(frames)]
+            obs["cur"] = uid(cf)
+            return cf
+        return None
+
+    fres = {}
+
+    def read_file():
+        um = os.umask(0o022)
+        try:
+            if os.path.exists(out):
+                st = os.stat(out)
+                state, data, raw = read_back(out, values)
+                fres["file"] = {"mode": stat.S_IMODE(st.st_mode), "state": state}
+                if data is not None:
+                    fres["saved"] = data
+                    fres["queries"], fres["props"] = run_queries(out, c["queries"], values, raw)
+            else:
+                fres["file"] = None
+        finally:
+            os.umask(um)
+
     rx = []
     real_search = re.search
 
@@ -401,41 +413,92 @@ def _impl(c, tmp):
         rx.append([pattern, string, 1 if r is not None else 0])
         return r
     raised = None
-    sys.last_exc = exc
-    sys.last_value = exc
-    re.search = rec_search
-    os.umask(c["umask"])
-    try:
+    ret = None
+    after_umask = None
+    if c.get("script"):
+        # bin/saveframe's own main(): it runs the program, catches the exception and saves
+        import runpy
+        if ent["kind"] == "call":
+            spath = os.path.join(root, "entry_script.py")
+            with open(spath, "w") as f:
+                f.write("import %s\n%s.%s()\n" % (ent["module"], ent["module"], ent["expr"]))
+        else:
+            spath = os.path.join(root, ent["path"])
+        argv = ["saveframe", "--filename=" + out]
+        if eff["frames"] is not None:
+            argv.append("--frames=%s" % (eff["frames"],))
+        if eff["variables"] is not None:
+            argv.append("--variables=" + eff["variables"])
+        if eff["exclude"] is not None:
+            argv.append("--exclude_variables=" + eff["exclude"])
+        argv.append(spath)
+        real_save = SF._save_frames_and_exception_info_to_file
+
+        def save_wrapper(**kw):
+            exc = kw["exception_obj"]
+            if c.get("exc_unpicklable"):
+                exc.args = exc.args + (lambda: 0,)
+            observe(exc)
+            try:
+                return real_save(**kw)
+            finally:
+                read_file()            # before runpy / bin/saveframe mutate the live objects again (sys.argv)
+        old_argv = sys.argv
+        SF._save_frames_and_exception_info_to_file = save_wrapper
+        sys.argv = argv
+        re.search = rec_search
+        os.umask(c["umask"])
         try:
-            if c.get("script"):
-                ret = _call_script(c, eff, out, exc, root)
-            else:
-                ret = _outer(types.SimpleNamespace(curframe=curframe) if curframe is not None else None, out, eff)
-        finally:
-            after_umask = os.umask(0o022)
-            re.search = real_search
-    except Exception as e:
-        raised = canon_exc(e)
-        ret = None
-    res = {"tmp": root, "order": order, "frames": desc, "tree": tree, "pk": pk, "dump_ok": dump_ok,
-           "eff": {k: jsonable_arg(v) for k, v in eff.items()}, "cur": cur, "rx": rx,
-           "raised": raised, "ret_ok": (ret == out) if raised is None else None, "umask_after": after_umask,
-           "names_valid": names_valid([c["variables"], c["exclude"]]),
-           "ints": ints_of(eff["frames"])}
-    if os.path.exists(out):
-        st = os.stat(out)
-        state, data, raw = read_back(out, values)
-        res["file"] = {"mode": stat.S_IMODE(st.st_mode), "state": state}
-        if data is not None:
-            res["saved"] = data
-            res["queries"], res["props"] = run_queries(out, c["queries"], values, raw)
-            del raw
+            try:
+                runpy.run_path(os.path.join(os.environ["VERIF_REPO"], "bin", "saveframe"), run_name="__main__")
+                ret = out
+            finally:
+                after_umask = os.umask(0o022)
+                re.search = real_search
+                sys.argv = old_argv
+                SF._save_frames_and_exception_info_to_file = real_save
+        except SystemExit as e:
+            raised = "SystemExit"
+        except Exception as e:
+            raised = canon_exc(e)
+        if "order" not in obs:
+            # the arguments were refused before the program ran: observe the same program raised directly
+            exc = _invoke(lambda: _run_script(spath))
+            observe(exc)
+            del exc
     else:
-        res["file"] = None
-    ev = exc
-    res["live_exc"] = [str(ev), "%s: %s" % (type(ev).__name__, ev), type(ev).__name__, type(ev).__qualname__, repr(ev.args)]
-    # break reference cycles through tracebacks
-    del frames, by_uid, curframe, exc, ev
+        if ent["kind"] == "call":
+            exc = _invoke(eval("lambda: %s()" % ent["expr"], vars(mods[ent["module"]])))
+        elif ent["kind"] == "exec":
+            path = os.path.join(root, ent["path"])
+            exc = _invoke(lambda: _run_script(path))
+        else:
+            exc = ValueError("never raised")          # no traceback at all
+        if c.get("exc_unpicklable"):
+            exc.args = exc.args + (lambda: 0,)
+        curframe = observe(exc)
+        sys.last_exc = exc
+        sys.last_value = exc
+        re.search = rec_search
+        os.umask(c["umask"])
+        try:
+            try:
+                ret = _outer(types.SimpleNamespace(curframe=curframe) if curframe is not None else None, out, eff)
+            finally:
+                after_umask = os.umask(0o022)
+                re.search = real_search
+        except Exception as e:
+            raised = canon_exc(e)
+            ret = None
+        del exc, curframe
+    res = dict(obs)
+    res.update({"tmp": root, "eff": {k: jsonable_arg(v) for k, v in eff.items()}, "rx": rx,
+                "raised": raised, "ret_ok": (ret == out) if raised is None else None, "umask_after": after_umask,
+                "names_valid": names_valid([c["variables"], c["exclude"]]),
+                "ints": ints_of(eff["frames"])})
+    if "file" not in fres:
+        read_file()
+    res.update(fres)
     return res
 
 
@@ -446,19 +509,6 @@ def _call(out, eff):
 
 def _outer(self, out, eff):
     return _call(out, eff)
-
-
-def _call_script(c, eff, out, exc, root):
-    """bin/saveframe's argument validation and save, as its main() performs them
-    (utility='script'), on the exception already raised"""
-    import pyflyby._saveframe as SF
-    filename, frames, variables, exclude_variables = SF._validate_saveframe_arguments(
-        filename=out, frames=eff["frames"], variables=eff["variables"],
-        exclude_variables=eff["exclude"], utility='script')
-    SF._save_frames_and_exception_info_to_file(
-        filename=filename, frames=frames, variables=variables,
-        exclude_variables=exclude_variables, exception_obj=exc)
-    return filename
 
 
 def names_valid(args):
